@@ -210,6 +210,8 @@ class TokenStore(Generic[_T]):
                     token.store_handle.block.store is not self or
                     not start <= (token.store_handle.block.index, token.store_handle.index) < end):
                 raise ValueError('Token already in a store.')
+        if len({id(token) for token in tokens}) != len(tokens):
+            raise ValueError('Token appears twice.')
 
         if start_i == end_i:
             len_removed = end_j - start_j
